@@ -491,7 +491,11 @@ mod async_io {
         ) -> io::Result<usize> {
             self.check_available_space(count)?;
 
-            let buf = unsafe { FileVolatileBuf::from_raw_ptr(self.buf.as_mut_ptr(), 0, count) };
+            // Safe because check_available_space() ensures that the buffer has at least `count`
+            // bytes of spare capacity behind what has been written so far.
+            let buf = unsafe {
+                FileVolatileBuf::from_raw_ptr(self.buf.as_mut_ptr().add(self.buf.len()), 0, count)
+            };
             let (res, _) = src.async_read_at_volatile(buf, off).await;
             match res {
                 Ok(cnt) => {
